@@ -731,10 +731,11 @@ class FlatInit(Contract):
         sig = S.sig
         n = S.a["self"].fields.get("n")
         acts = S.a["self"].fields.get("actions")
-        ok = n is not None and isinstance(acts, SymSeq)
+        ok = n is not None and isinstance(acts, (SymSeq, PyList))
         out = [("C11.flat-space-has-list", z3.BoolVal(ok))]
         if ok:
-            out.append(("C11.flat-n-is-list-length", z3.And(ival(n) == ival(acts.n),
+            ln = ival(acts.n) if isinstance(acts, SymSeq) else z3.IntVal(len(acts.items))
+            out.append(("C11.flat-n-is-list-length", z3.And(ival(n) == ln,
                                                             ival(n) == ival(sig.N) * (ival(sig.nE) + ival(sig.nP) + 4))))
         return out
 
